@@ -15,7 +15,7 @@
    literal expression that evaluates to itself, `Residual::Error` is a call of the reserved extension function
    `error`, which the evaluator answers with FailedExtensionFunctionLookup (ErrUnknownFn). *)
 From Coq Require Import String.
-From Cedar Require Export TExpr Authz.
+From Cedar Require Export TExpr Authz ExtParse.
 Open Scope string_scope.
 
 Inductive residual :=
@@ -129,7 +129,36 @@ Fixpoint kvals_of (l : list (str * residual)) : option (list (str * value)) :=
   | (k, r) :: l' => match val_of r, kvals_of l' with Some v, Some vs => Some ((k, v) :: vs) | _, _ => None end
   end.
 
+(* the three variants of a Rust residual *)
+Inductive rshape := SVal (v : value) | SErr | SPartial.
+Definition shape (r : residual) : rshape := match r with RVal v => SVal v | RErr => SErr | _ => SPartial end.
+
+(* `<left-residual> && <right>` / `<left-residual> || <right>` once the left operand stayed partial *)
+Definition and_right (l r' : residual) : residual :=
+  match shape r' with
+  | SVal v => match as_bool v with
+              | Ok true => l
+              | Ok false => if negb (can_error l) then RVal (VBool false) else RAnd l (RVal (VBool false))
+              | Err _ => RAnd l RErr
+              end
+  | _ => RAnd l r'
+  end.
+Definition or_right (l r' : residual) : residual :=
+  match shape r' with
+  | SVal v => match as_bool v with
+              | Ok false => l
+              | Ok true => if negb (can_error l) then RVal (VBool true) else ROr l (RVal (VBool true))
+              | Err _ => ROr l RErr
+              end
+  | _ => ROr l r'
+  end.
+
 Definition of_res (r : res value) : residual := match r with Ok v => RVal v | Err _ => RErr end.
+
+(* The extension library is a parameter: the theorems hold for any library; the run command instantiates it with
+   the full function table of ExtParse.v (C07), the link to Eval.eval instantiates it with Ext.call_ext. *)
+Section WithExt.
+Variable cx : name -> list value -> res value.
 
 Section Interp.
   Variable pq : prequest.
@@ -189,7 +218,8 @@ Section Interp.
     | BContains | BContainsAll | BContainsAny => of_res (binary_app [] op v1 v2)
     end.
 
-  (* tpe::Evaluator::interpret *)
+  (* tpe::Evaluator::interpret.  Every arm first matches on the three variants of the interpreted operand
+     (Residual::Concrete / Error / Partial): `shape`. *)
   Fixpoint interp (r : residual) : residual :=
     match r with
     | RVal _ => r
@@ -200,117 +230,102 @@ Section Interp.
     | RVar Context => match pq_ctx pq with Some c => RVal (VRecord c) | None => RVar Context end
     | RAnd a b =>
         let l := interp a in
-        match l with
-        | RVal v => match as_bool v with
+        match shape l with
+        | SVal v => match as_bool v with
                     | Ok false => RVal (VBool false)
                     | Ok true => interp b
                     | Err _ => RErr
                     end
-        | RErr => RErr
-        | _ =>
-            let r' := interp b in
-            match r' with
-            | RVal v => match as_bool v with
-                        | Ok true => l
-                        | Ok false => if negb (can_error l) then RVal (VBool false) else RAnd l (RVal (VBool false))
-                        | Err _ => RAnd l RErr
-                        end
-            | _ => RAnd l r'
-            end
+        | SErr => RErr
+        | SPartial => and_right l (interp b)
         end
     | ROr a b =>
         let l := interp a in
-        match l with
-        | RVal v => match as_bool v with
+        match shape l with
+        | SVal v => match as_bool v with
                     | Ok true => RVal (VBool true)
                     | Ok false => interp b
                     | Err _ => RErr
                     end
-        | RErr => RErr
-        | _ =>
-            let r' := interp b in
-            match r' with
-            | RVal v => match as_bool v with
-                        | Ok false => l
-                        | Ok true => if negb (can_error l) then RVal (VBool true) else ROr l (RVal (VBool true))
-                        | Err _ => ROr l RErr
-                        end
-            | _ => ROr l r'
-            end
+        | SErr => RErr
+        | SPartial => or_right l (interp b)
         end
     | RIf c a b =>
         let c' := interp c in
-        match c' with
-        | RVal v => match as_bool v with
+        match shape c' with
+        | SVal v => match as_bool v with
                     | Ok true => interp a
                     | Ok false => interp b
                     | Err _ => RErr
                     end
-        | RErr => RErr
-        | _ => RIf c' (interp a) (interp b)
+        | SErr => RErr
+        | SPartial => RIf c' (interp a) (interp b)
         end
     | RIs e t =>
         let e' := interp e in
-        match e' with
-        | RVal v => match as_entity v with Ok u => RVal (VBool (name_eqb (uty u) t)) | Err _ => RErr end
-        | RVar Principal => RVal (VBool (name_eqb t (pq_pty pq)))
-        | RVar Resource => RVal (VBool (name_eqb t (pq_rty pq)))
-        | RErr => RErr
-        | _ => RIs e' t
+        match shape e' with
+        | SVal v => match as_entity v with Ok u => RVal (VBool (name_eqb (uty u) t)) | Err _ => RErr end
+        | SErr => RErr
+        | SPartial =>
+            match e' with
+            | RVar Principal => RVal (VBool (name_eqb t (pq_pty pq)))
+            | RVar Resource => RVal (VBool (name_eqb t (pq_rty pq)))
+            | _ => RIs e' t
+            end
         end
     | RLike e p =>
         let e' := interp e in
-        match e' with
-        | RVal v => match as_string v with Ok s => RVal (VBool (wildcard p s)) | Err _ => RErr end
-        | RErr => RErr
-        | _ => RLike e' p
+        match shape e' with
+        | SVal v => match as_string v with Ok s => RVal (VBool (wildcard p s)) | Err _ => RErr end
+        | SErr => RErr
+        | SPartial => RLike e' p
         end
     | RBin op a b =>
         let a' := interp a in
         let b' := interp b in
-        match a', b' with
-        | RVal v1, RVal v2 => interp_bin op v1 v2
-        | RErr, _ => RErr
-        | _, RErr => RErr
+        match shape a', shape b' with
+        | SVal v1, SVal v2 => interp_bin op v1 v2
+        | SErr, _ => RErr
+        | _, SErr => RErr
         | _, _ => RBin op a' b'
         end
     | RGetAttr e a =>
         let e' := interp e in
-        match e' with
-        | RVal (VRecord r) => match lookup a r with Some x => RVal x | None => RErr end
-        | RVal (VPrim (PEntity u)) =>
+        match shape e' with
+        | SVal (VRecord r) => match lookup a r with Some x => RVal x | None => RErr end
+        | SVal (VPrim (PEntity u)) =>
             match get_attrs pes u with
             | Some attrs => match lookup a attrs with Some x => RVal x | None => RErr end
             | None => RGetAttr e' a
             end
-        | RVal _ => RErr
-        | RErr => RErr
-        | _ => RGetAttr e' a
+        | SVal _ => RErr
+        | SErr => RErr
+        | SPartial => RGetAttr e' a
         end
     | RHasAttr e a =>
         let e' := interp e in
-        match e' with
-        | RVal (VRecord r) => RVal (VBool (has_key a r))
-        | RVal (VPrim (PEntity u)) =>
+        match shape e' with
+        | SVal (VRecord r) => RVal (VBool (has_key a r))
+        | SVal (VPrim (PEntity u)) =>
             match get_attrs pes u with
             | Some attrs => RVal (VBool (has_key a attrs))
             | None => RHasAttr e' a
             end
-        | RVal _ => RErr
-        | RErr => RErr
-        | _ => RHasAttr e' a
+        | SVal _ => RErr
+        | SErr => RErr
+        | SPartial => RHasAttr e' a
         end
     | RUn op a =>
         let a' := interp a in
-        match a' with
-        | RVal v => of_res (unary_app op v)
-        | RErr => RErr
-        | _ => RUn op a'
+        match shape a' with
+        | SVal v => of_res (unary_app op v)
+        | SErr => RErr
+        | SPartial => RUn op a'
         end
     | RExt fn args =>
         let args' := map interp args in
         match vals_of args' with
-        | Some vs => of_res (call_ext fn vs)
+        | Some vs => of_res (cx fn vs)
         | None => if existsb is_err args' then RErr else RExt fn args'
         end
     | RSet items =>
@@ -355,7 +370,7 @@ Section REval.
                     | [] => Ok []
                     | x :: l' => do v <- reval x; do vs <- go l'; Ok (v :: vs)
                     end) args;
-        call_ext fn vs
+        cx fn vs
     | RGetAttr e a => do v <- reval e; get_attr es v a
     | RHasAttr e a => do v <- reval e; has_attr es v a
     | RLike e p => do v <- reval e; do s <- as_string v; Ok (VBool (wildcard p s))
@@ -507,3 +522,9 @@ Definition query (fill : uid -> request) (hole : etype) (rs : list rpolicy) (es 
 Definition query_action (per_action : list (uid * list rpolicy)) : list (uid * option decision) :=
   filter (fun ad => match snd ad with Some Deny => false | _ => true end)
          (map (fun ap => (fst ap, tpe_decision (snd ap))) per_action).
+
+End WithExt.
+
+(* the full extension function table (ExtParse.call_xfn), looked up by unqualified name like Extensions::func *)
+Definition call_full (n : name) (args : list value) : res value :=
+  match n with [b] => call_xfn b args | _ => Err ErrUnknownFn end.
